@@ -31,6 +31,10 @@ EXPLANATION = (
     "equal spin blocks (see C01). "
     "PAIR-1 (parity): the occupation segment counted for each move is the running occupation the loop "
     "updates, which is a private copy of the reference. "
+    "PAIR-1 (value graph): each parity(...) call receives the reference occupation of spin s, the vacated "
+    "labels of spin s and the newly occupied labels of spin s; both ends of the segment counted inside "
+    "parity depend on both indices. Producer sites written as D.setdefault(k, []).append(x) are read as "
+    "D[k] = D.get(k, []) + [x]. "
 )
 NOT_DECIDED = "parity/sign conventions as formulas, the zero-variance consequence for exact trials."
 TECHNIQUE = "static analysis: cross-module index-space (label vs rank) def-use rule, pairing rules, reader format table"
